@@ -94,11 +94,17 @@ def check_rec(ctx, kind, c, desc):
         return r
     descending = fmt == 4 and n is None
     # O2 anchor membership / position
+    if noisy:
+        # outside the exact float domain "is the anchor" means "denotes the anchor's instant to within a microsecond"
+        ia = impl.alpha_fast(a, c)[7]
+        same = lambda p: abs(impl.alpha_fast(p, c)[7] - ia) <= TOL   # noqa: E731
+    else:
+        same = lambda p: p == a   # noqa: E731
     if fmt in (1, 3) or descending:
-        if not (pts[0] == a):
+        if not same(pts[0]):
             ctx.violation("anchor", sig, case, {"first": impl.sstr(a)}, shown())
     else:
-        if not any(p == a for p in pts):
+        if not any(same(p) for p in pts):
             ctx.violation("anchor", sig, case, {"contains_end": impl.sstr(a)}, shown())
     # the interval this recurrence denotes
     if fmt == 1:
